@@ -62,7 +62,7 @@ var uniqifyStream = (&StreamSpec{
 		}
 	},
 	Gen: func(g *Gen, i int) (any, string) {
-		bases := []string{"pet", "owner", "é", "ǆ", "日本", "a b", "x"}
+		bases := []string{"pet", "owner", "é", "ǆ", "日本", "a b", "x", "οδος", "maſs", "µm"} // incl. letters whose simple folding is not ToLower/ToUpper (ς, ſ, µ)
 		variant := func(s string) string {
 			switch g.n(4) {
 			case 0:
@@ -281,7 +281,7 @@ var sortStream = (&StreamSpec{
 	Op:     "sort",
 	N:      300,
 	Stream: 7,
-	Rule:   "DepthFirst / TopmostFirst on key sets: all analyzer keys (schemas and references) of generated documents plus synthetic keys (signed status codes, unknown sections, escaped segments); the implementation is called on the keys in two different orders; non-trivial = at least 3 keys; distinct by canonical JSON",
+	Rule:   "DepthFirst / TopmostFirst on key sets: all analyzer keys (schemas and references) of generated documents plus synthetic keys (signed status codes, unknown sections, escaped segments, numeral siblings of different lengths / with leading zeros, keys differing by letter case); the implementation is called on the keys in two different orders; non-trivial = at least 3 keys; distinct by canonical JSON",
 	Gen: func(g *Gen, i int) (any, string) {
 		g.MaxDepth = 2
 		doc := normRefs(g.Doc(DocOpts{NoPathsProb: 0.05}))
@@ -301,6 +301,15 @@ var sortStream = (&StreamSpec{
 			}
 		}()
 		keys = append(keys, "#/paths/~1a/get/responses/+200/schema", "#/paths/~1a/get/responses/-1/schema", "#/x-ext/foo/bar", "#/definitions", "#/", "#/paths/~1a//get/responses/default", "#/responses/r/schema/items", "#/parameters/p/schema")
+		// sibling keys whose last segments are numerals of different lengths / with leading zeros, and keys that differ by
+		// letter case only: ties and numeric orders in a comparison function show up here
+		base := g.pick([]string{"#/definitions/holder/properties", "#/definitions/holder/allOf", "#/paths/~1a/get/responses/200/schema/properties", "#/definitions/holder/properties/t/items"})
+		for _, n := range [][]string{{"7", "07"}, {"2", "10"}, {"1", "01", "001", "11"}, {"9", "10", "100"}}[g.n(4)] {
+			keys = append(keys, base+"/"+n)
+		}
+		if g.p(0.5) {
+			keys = append(keys, "#/definitions/Item", "#/definitions/item", "#/definitions/holder/properties/Name", "#/definitions/holder/properties/name")
+		}
 		seen := map[string]bool{}
 		var ks []any
 		sort.Strings(keys)
